@@ -136,6 +136,9 @@ def eval_call(fa, e, env):
     for a in e.args:
         v = fa.eval(a, env)
         args.append(v)
+        if isinstance(a, ast.Starred) and any(x[0] == 'ITER' for x in v):
+            # f(*iterator) materialises the whole iterator before f is even called
+            fa.emit('consume', a, {'how': '*-unpacking', 'arg': v, 'arg_node': a.value})
     kw = {}
     for k in e.keywords:
         v = fa.eval(k.value, env)
